@@ -2133,3 +2133,118 @@ func ruleSliceBound(prog *Program, rep *Report) {
 		rep.Errorf("B-slicebound examined %d slice loops (floor 12): anchors did not resolve", cnt)
 	}
 }
+
+// ---------------------------------------------------------------- B-filterroot
+
+// ruleFilterRoot: a filter may refer to the document root (`$.limit`). The
+// script evaluator takes the root as a parameter (evalWithRoot); the root-less
+// forms - Script.Match(v), which makes v its own root, and Script.Eval, which
+// passes nil - are the public API for stand-alone scripts. An evaluator that
+// walks a document and uses a root-less form evaluates `$` against the element
+// (or nothing), so it selects other elements than Get does for the same path.
+// inScope(function key) limits the report to the functions a property is about.
+func ruleFilterRoot(prog *Program, rep *Report, inScope func(fn string) bool) {
+	rep.Rules = append(rep.Rules, "B-filterroot: inside package jp's evaluators a filter script is evaluated with the document root: no call of the root-less forms Script.Match / Script.Eval (also through the embedding Filter) and no evalWithRoot(..., nil) outside Script.Eval itself; otherwise `$` inside a filter denotes the element or nothing and the evaluator disagrees with Get")
+	pk := prog.Pkg("jp")
+	if pk == nil {
+		rep.Errorf("B-filterroot: package jp not loaded")
+		return
+	}
+	info := pk.TypesInfo
+	scriptTN, _ := pk.Types.Scope().Lookup("Script").(*types.TypeName)
+	if scriptTN == nil {
+		rep.Errorf("B-filterroot: type jp.Script not found")
+		return
+	}
+	isScriptMethod := func(o types.Object, name string) bool {
+		fn, ok := o.(*types.Func)
+		if !ok || fn.Name() != name {
+			return false
+		}
+		sig := fn.Type().(*types.Signature)
+		if sig.Recv() == nil {
+			return false
+		}
+		t := sig.Recv().Type()
+		if p, ok := t.(*types.Pointer); ok {
+			t = p.Elem()
+		}
+		n, ok := t.(*types.Named)
+		return ok && n.Obj() == scriptTN
+	}
+	type hit struct {
+		pos  token.Pos
+		form string
+	}
+	total, rooted := 0, 0
+	for _, f := range pk.Syntax {
+		if strings.HasSuffix(prog.Fset.Position(f.Pos()).Filename, "_test.go") {
+			continue
+		}
+		for _, d := range f.Decls {
+			fd, ok := d.(*ast.FuncDecl)
+			if !ok || fd.Body == nil {
+				continue
+			}
+			fk := funcKey(fd)
+			byForm := map[string][]hit{}
+			ast.Inspect(fd.Body, func(n ast.Node) bool {
+				call, ok := n.(*ast.CallExpr)
+				if !ok {
+					return true
+				}
+				sel, ok := call.Fun.(*ast.SelectorExpr)
+				if !ok {
+					return true
+				}
+				o := info.Uses[sel.Sel]
+				switch {
+				case isScriptMethod(o, "Match"):
+					byForm["Match"] = append(byForm["Match"], hit{call.Pos(), "Match"})
+				case isScriptMethod(o, "Eval"):
+					byForm["Eval"] = append(byForm["Eval"], hit{call.Pos(), "Eval"})
+				case isScriptMethod(o, "evalWithRoot"), isScriptMethod(o, "matchWithRoot"):
+					total++
+					if len(call.Args) >= 2 {
+						if id, ok := ast.Unparen(call.Args[len(call.Args)-1]).(*ast.Ident); ok && id.Name == "nil" {
+							byForm["evalWithRoot(nil)"] = append(byForm["evalWithRoot(nil)"], hit{call.Pos(), "evalWithRoot(.., nil)"})
+							return true
+						}
+					}
+					rooted++
+				}
+				return true
+			})
+			if fk == "Script.Eval" {
+				// the root-less public form itself
+				for form := range byForm {
+					rep.Discharge("B-filterroot", "jp."+fk+":"+form, prog.Pos(fd.Pos()), "the documented root-less form for stand-alone scripts")
+				}
+				continue
+			}
+			var forms []string
+			for form := range byForm {
+				forms = append(forms, form)
+			}
+			sort.Strings(forms)
+			for _, form := range forms {
+				hs := byForm[form]
+				total += len(hs)
+				if inScope != nil && !inScope(fk) {
+					continue
+				}
+				what := "the element itself as `$`"
+				if form != "Match" {
+					what = "no root at all"
+				}
+				rep.Violate(Finding{Rule: "B-filterroot", Key: fmt.Sprintf("jp.%s:rootless-%s", fk, form), Pos: prog.Pos(hs[0].pos),
+					Msg: fmt.Sprintf("%s evaluates a filter with %s (%d call(s) of %s, first shown): a filter that refers to `$` selects other elements here than in Get, which passes the document", fk, what, len(hs), hs[0].form)})
+			}
+		}
+	}
+	rep.Discharge("B-filterroot", "jp:rooted", "jp", fmt.Sprintf("%d calls of evalWithRoot / matchWithRoot pass a root", rooted))
+	rep.Eval(total)
+	if rooted < 8 {
+		rep.Errorf("B-filterroot found %d rooted evaluations (floor 8): anchors did not resolve", rooted)
+	}
+}
